@@ -36,6 +36,9 @@ ALLOWED_AXIOMS = {
     "proof_irrelevance", "ProofIrrelevance.proof_irrelevance", "Classical_Prop.classic", "classic",
     "JMeq_eq", "JMeq.JMeq_eq", "Eqdep.Eq_rect_eq.eq_rect_eq", "eq_rect_eq",
     "propositional_extensionality", "PropExtensionality.propositional_extensionality",
+    # the standard library's real numbers (Reals; used through Flocq by Adapter/YeastFloat.v only)
+    "ClassicalDedekindReals.sig_not_dec", "sig_not_dec",
+    "ClassicalDedekindReals.sig_forall_dec", "sig_forall_dec",
 }
 
 
@@ -491,6 +494,7 @@ def parse_axioms(block):
     if block.startswith("??"):
         return [block]
     axs = []
+    block = re.sub(r"\n\s+:", " :", block)   # a long name is printed with its type on the next line
     for line in block.split("\n"):
         m = re.match(r"^([A-Za-z_][\w.']*)\s*:", line)
         if m:
